@@ -57,6 +57,7 @@ struct Engine {
     dead: Option<String>,
     alloc_mean: u64,
     alloc_yields: u64,
+    block_mean: u64,
     /// a caller thread that just finished and waits to be joined by the coordinator
     exiting: Option<usize>,
     /// kernel thread ids of the simulated threads (0 = unknown yet)
@@ -81,6 +82,8 @@ thread_local! {
     /// only), 2 open (also allocation-point preemption)
     static GATE: Cell<u8> = const { Cell::new(0) };
     static COUNTDOWN: Cell<u64> = const { Cell::new(u64::MAX) };
+    /// basic-block preemption: blocks of library code left until the next scheduling point
+    static BLOCK_COUNTDOWN: Cell<u64> = const { Cell::new(u64::MAX) };
 }
 
 /// Restores the allocation gate of this thread when dropped.
@@ -101,20 +104,29 @@ pub fn gate_close() -> GateGuard {
 /// Open the gate for the library code of one call (threads engine only, and only when the
 /// plan asks for allocation-point preemption).
 pub fn gate_open_for_call() -> GateGuard {
-    let mean = {
+    let open = {
         let mut g = lock();
         match g.as_mut() {
-            Some(e) if e.active && e.alloc_mean > 0 && tid() != 0 => {
-                let m = e.alloc_mean;
-                let next = 1 + e.rng.below(2 * m as usize) as u64;
-                COUNTDOWN.with(|c| c.set(next));
-                m
+            Some(e) if e.active && tid() != 0 && (e.alloc_mean > 0 || e.block_mean > 0) => {
+                let next_a = if e.alloc_mean > 0 {
+                    1 + e.rng.below(2 * e.alloc_mean as usize) as u64
+                } else {
+                    u64::MAX
+                };
+                let next_b = if e.block_mean > 0 {
+                    1 + e.rng.below(2 * e.block_mean as usize) as u64
+                } else {
+                    u64::MAX
+                };
+                COUNTDOWN.with(|c| c.set(next_a));
+                BLOCK_COUNTDOWN.with(|c| c.set(next_b));
+                true
             }
-            _ => 0,
+            _ => false,
         }
     };
     let armed = tid() != 0 && active();
-    GateGuard(GATE.with(|g| g.replace(if mean > 0 { 2 } else if armed { 1 } else { 0 })))
+    GateGuard(GATE.with(|g| g.replace(if open { 2 } else if armed { 1 } else { 0 })))
 }
 
 /// Called by the global allocator before every allocation. With the gate open, every
@@ -141,6 +153,9 @@ pub fn alloc_point() {
     let fire = COUNTDOWN
         .try_with(|c| {
             let v = c.get();
+            if v == u64::MAX {
+                return false;
+            }
             if v > 1 {
                 c.set(v - 1);
                 false
@@ -158,6 +173,60 @@ pub fn alloc_point() {
 /// A thread that lost the baton while it was asleep in the kernel comes back.
 fn rejoin(me: usize) {
     drop(enter(me));
+}
+
+/// Called (through `__sanitizer_cov_trace_pc_guard`) at every basic-block edge of the two
+/// library crates, which are compiled with SanitizerCoverage instrumentation. With the gate
+/// open and the plan asking for it, every n-th block (n from the plan's PRNG) is a
+/// scheduling point: a running call can be preempted between any two basic blocks of
+/// library code — also where there is no allocation, no lock event and no log record.
+#[inline]
+pub fn block_point() {
+    let gate = GATE.try_with(|g| g.get()).unwrap_or(0);
+    if gate < 2 {
+        return;
+    }
+    let fire = BLOCK_COUNTDOWN
+        .try_with(|c| {
+            let v = c.get();
+            if v == u64::MAX {
+                return false;
+            }
+            if v > 1 {
+                c.set(v - 1);
+                false
+            } else {
+                true
+            }
+        })
+        .unwrap_or(false);
+    if fire {
+        let _closed = gate_close();
+        block_sched_point();
+    }
+}
+
+fn block_sched_point() {
+    let me = tid();
+    if me == 0 {
+        return;
+    }
+    {
+        let mut g = lock();
+        let Some(e) = g.as_mut() else { return };
+        if !e.active {
+            return;
+        }
+        let m = e.block_mean.max(1);
+        let next = 1 + e.rng.below(2 * m as usize) as u64;
+        BLOCK_COUNTDOWN.with(|c| c.set(next));
+    }
+    {
+        let mut st = state();
+        st.counters.block_yields += 1;
+        st.ev(&format!("t{me} block-yield"));
+    }
+    sched_point();
 }
 
 fn alloc_sched_point() {
@@ -211,7 +280,7 @@ pub struct Stats {
     pub ext_blocks: u64,
 }
 
-pub fn start(sched: &Sched, nthreads: usize, alloc_mean: u64) {
+pub fn start(sched: &Sched, nthreads: usize, alloc_mean: u64, block_mean: u64) {
     let explicit = sched.explicit.clone().unwrap_or_default();
     let explicit_mode = !explicit.is_empty() || sched.switch_ppm == 0;
     *lock() = Some(Engine {
@@ -232,6 +301,7 @@ pub fn start(sched: &Sched, nthreads: usize, alloc_mean: u64) {
         dead: None,
         alloc_mean,
         alloc_yields: 0,
+        block_mean,
         exiting: None,
         os_tids: vec![0; nthreads + 1],
         ext_blocks: 0,
